@@ -107,6 +107,7 @@ inline bool face_checks(vh::Case& c, const PR& s, std::size_t d, const std::stri
 struct CofaceOpts {
   std::uint64_t cap = 3000;        // coface sets larger than this (closed-form count) are skipped
   std::size_t converse_sample = 48;  // how many listed cofaces are checked back through face_range
+  std::size_t face_sample = 1000;    // how many listed faces are checked back through coface_range
 };
 
 // coface_range(l) for l = dim..d, cofacet_range: contains s, right dimension, valid, recognised, and the set equals the oracle's.
@@ -175,7 +176,9 @@ inline bool coface_checks(vh::Case& c, const PR& s, std::size_t d, const std::st
 inline bool coface_of_face_checks(vh::Case& c, const PR& s, std::size_t d, const std::string& origin, const fk::Simplex& V,
                                   const std::vector<PR>& faces, const CofaceOpts& o) {
   const std::size_t dim = s.dimension();
-  for (auto& f : faces) {
+  const std::size_t stride = std::max<std::size_t>(1, faces.size() / std::max<std::size_t>(1, o.face_sample));
+  for (std::size_t fi = c.rng.below(stride); fi < faces.size(); fi += stride) {
+    const PR& f = faces[fi];
     std::vector<std::size_t> sizes;
     for (auto& p : f.partition()) sizes.push_back(p.size());
     if (!wellformed(f, d)) { c.count("skip.face_rep_not_wellformed"); continue; }
